@@ -24,7 +24,7 @@ Step(st2, rd2, vs) == /\ l' = l + 1 /\ st' = st2 /\ rd' = rd2 /\ viols' = vs /\ 
 
 Consuming == {"Read", "Next", "Discard", "WriteTo"}
 
-Next ==
+Step1 ==
     /\ More
     /\ LET e == Ev IN
        CASE e.ev = "Reset" -> Step(Empty, Empty, viols)
@@ -57,4 +57,6 @@ Next ==
                               "AllOfferedBeforeEOFClose", <<e.c, Rd(e.c), s.total>>, v1)
               IN Step(Put(st, e.c, [s EXCEPT !.closed = TRUE]), rd, v2)
          [] OTHER -> Step(st, rd, viols)
+
+Next == Step1 \/ FinishWith(<<st, rd>>)
 =============================================================================
